@@ -31,14 +31,15 @@ Definition C05_strict_full : Prop :=
         Guards beyond C01's (sels_strict): no __typename directly at the operation root (F29: plain str),
         no @skip/@include on a field of non-null type (its added Optional also admits an explicit null),
         every custom scalar used is configured (otherwise the annotation is Any, which admits null).
+        @mixin extra bases as in C01: mx lists the names, none of them a class of the table (mx_ok).
         "ev P": P holds at every sufficiently large fuel of the conformance checker. ---- *)
 Theorem C05_strict_partial :
-  forall C S frs fuel kind name sels root own pub' cls g gs j n,
+  forall C S frs fuel kind name mixins sels root own pub' cls g gs mx j n,
     root_type_name S kind = Ok root ->
-    op_parse fuel C S frs kind name [] sels = Ok (own, pub', false) ->
-    all_classes fuel C S frs (DOp kind name [] sels) = Ok cls ->
-    op_ok g true C S frs root sels = true -> sels_strict gs C S frs false root sels = true ->
-    no_basemodel own = true ->
+    op_parse fuel C S frs kind name mixins sels = Ok (own, pub', false) ->
+    all_classes fuel C S frs (DOp kind name mixins sels) = Ok cls ->
+    op_ok g true C S frs mx mixins root sels = true -> sels_strict gs C S frs mx false root sels = true ->
+    mx_ok cls mx = true -> no_basemodel own = true ->
     accepts n cls (schema_enums S) (AClass (pascal_s name)) j = true ->
     covers n cls (AClass (pascal_s name)) j = true ->
     exists fc0, forall fc, fc >= fc0 -> conf_op_gen lax_leaf false true fc S frs root sels j = true.
@@ -47,12 +48,12 @@ Print Assumptions C05_strict_partial.
 
 (* the same, read as a rejection: not lax-conformant (at any fuel) and no undeclared key => rejected *)
 Theorem C05_strict_partial_rejects :
-  forall C S frs fuel kind name sels root own pub' cls g gs j n,
+  forall C S frs fuel kind name mixins sels root own pub' cls g gs mx j n,
     root_type_name S kind = Ok root ->
-    op_parse fuel C S frs kind name [] sels = Ok (own, pub', false) ->
-    all_classes fuel C S frs (DOp kind name [] sels) = Ok cls ->
-    op_ok g true C S frs root sels = true -> sels_strict gs C S frs false root sels = true ->
-    no_basemodel own = true ->
+    op_parse fuel C S frs kind name mixins sels = Ok (own, pub', false) ->
+    all_classes fuel C S frs (DOp kind name mixins sels) = Ok cls ->
+    op_ok g true C S frs mx mixins root sels = true -> sels_strict gs C S frs mx false root sels = true ->
+    mx_ok cls mx = true -> no_basemodel own = true ->
     (forall fc, conf_op_gen lax_leaf false true fc S frs root sels j = false) ->
     covers n cls (AClass (pascal_s name)) j = true ->
     accepts n cls (schema_enums S) (AClass (pascal_s name)) j = false.
@@ -63,11 +64,12 @@ Print Assumptions C05_strict_partial_rejects.
    mixin fragments are on the object type itself and again strict — in particular without __typename,
    which a fragment class types as plain str; table guards as for C01_accepts_partial_mixins) *)
 Theorem C05_strict_partial_mixins :
-  forall C S frs F kind name sels root own pub' cls g gs j n,
+  forall C S frs F kind name mixins sels root own pub' cls g gs mx j n,
     root_type_name S kind = Ok root ->
-    op_parse F C S frs kind name [] sels = Ok (own, pub', false) ->
-    all_classes F C S frs (DOp kind name [] sels) = Ok cls ->
-    op_okM g true C S frs root sels = true -> sels_strictM gs C S frs false root sels = true ->
+    op_parse F C S frs kind name mixins sels = Ok (own, pub', false) ->
+    all_classes F C S frs (DOp kind name mixins sels) = Ok cls ->
+    op_okM g true C S frs mx mixins root sels = true -> sels_strictM gs C S frs false root sels = true ->
+    mx_ok cls mx = true ->
     nodupb (map c_name cls) = true -> no_basemodel cls = true -> frag_no_skip F C S frs = true ->
     n >= F + g + 2 ->
     accepts n cls (schema_enums S) (AClass (pascal_s name)) j = true ->
@@ -78,11 +80,12 @@ Print Assumptions C05_strict_partial_mixins.
 
 (* at the level of one generated class, any depth below it *)
 Theorem C05_object_strict :
-  forall C S frs fuel g gs nested pub cn tn sels at_ tv out pub' cs kv n,
-    parse_type_def fuel C S frs pub cn tn sels at_ [] tv = Ok (out, pub', false) ->
-    sels_ok g true C S frs at_ tn tn sels = true -> sels_strict gs C S frs nested tn sels = true ->
+  forall C S frs mx fuel g gs nested pub cn tn sels at_ eb tv out pub' cs kv n,
+    parse_type_def fuel C S frs pub cn tn sels at_ eb tv = Ok (out, pub', false) ->
+    sels_ok g true C S frs mx at_ tn tn sels = true -> sels_strict gs C S frs mx nested tn sels = true ->
     (at_ = true -> has_typename sels = true) ->
     tv = (if nested then Some [tn] else None) -> table_ok cs out ->
+    mx_ok cs mx = true -> harmless cs eb ->
     accepts n cs (schema_enums S) (AClass cn) (JObj kv) = true ->
     covers n cs (AClass cn) (JObj kv) = true ->
     exists fc0, forall fc, fc >= fc0 ->
@@ -216,7 +219,7 @@ Example C05_partial_hypotheses_satisfiable :
     root_type_name SY "query" = Ok "Query" /\
     op_parse 10 C0 SY [] "query" "GetPeople" [] selsY = Ok (own, pub', false) /\
     all_classes 10 C0 SY [] (DOp "query" "GetPeople" [] selsY) = Ok cls /\
-    op_ok 10 true C0 SY [] "Query" selsY = true /\ sels_strict 10 C0 SY [] false "Query" selsY = true /\
+    op_ok 10 true C0 SY [] [] [] "Query" selsY = true /\ sels_strict 10 C0 SY [] [] false "Query" selsY = true /\
     no_basemodel own = true /\
     (* accepted and covered, with a lax Int leaf *)
     (let j := userY (JStr "User") (JStr "1") (JObj [("city", JStr "X"); ("zip", JStr "12")]) in
@@ -261,7 +264,7 @@ Example C05_mixins_hypotheses_satisfiable :
     root_type_name SY "query" = Ok "Query" /\
     op_parse 10 C0 SY frsN "query" "GetUsers" [] selsN = Ok (own, pub', false) /\
     all_classes 10 C0 SY frsN (DOp "query" "GetUsers" [] selsN) = Ok cls /\
-    op_okM 10 true C0 SY frsN "Query" selsN = true /\ sels_strictM 10 C0 SY frsN false "Query" selsN = true /\
+    op_okM 10 true C0 SY frsN [] [] "Query" selsN = true /\ sels_strictM 10 C0 SY frsN false "Query" selsN = true /\
     nodupb (map c_name cls) = true /\ no_basemodel cls = true /\ frag_no_skip 10 C0 SY frsN = true /\
     accepts 22 cls (schema_enums SY) (AClass (pascal_s "GetUsers")) (userN (JObj [("city", JStr "X")])) = true /\
     covers 22 cls (AClass (pascal_s "GetUsers")) (userN (JObj [("city", JStr "X")])) = true /\
@@ -289,7 +292,7 @@ Example C05_union_hypotheses_satisfiable :
     root_type_name SY "query" = Ok "Query" /\
     op_parse 10 C0 SY [] "query" "Find" [] selsU = Ok (own, pub', false) /\
     all_classes 10 C0 SY [] (DOp "query" "Find" [] selsU) = Ok cls /\
-    op_ok 10 true C0 SY [] "Query" selsU = true /\ sels_strict 10 C0 SY [] false "Query" selsU = true /\
+    op_ok 10 true C0 SY [] [] [] "Query" selsU = true /\ sels_strict 10 C0 SY [] [] false "Query" selsU = true /\
     no_basemodel own = true /\
     accepts 12 cls (schema_enums SY) (AClass "Find")
             (JObj [("found", JObj [("__typename", JStr "Bot"); ("v", JInt 3)])]) = true /\
@@ -342,7 +345,7 @@ Example C05_interface_hypotheses_satisfiable :
     root_type_name SI2 "query" = Ok "Query" /\
     op_parse 10 C0 SI2 [] "query" "Q" [] selsI2 = Ok (own, pub', false) /\
     all_classes 10 C0 SI2 [] (DOp "query" "Q" [] selsI2) = Ok cls /\
-    op_ok 10 true C0 SI2 [] "Query" selsI2 = true /\ sels_strict 10 C0 SI2 [] false "Query" selsI2 = true /\
+    op_ok 10 true C0 SI2 [] [] [] "Query" selsI2 = true /\ sels_strict 10 C0 SI2 [] [] false "Query" selsI2 = true /\
     no_basemodel own = true /\
     (let j := JObj [("named", JObj [("__typename", JStr "A"); ("name", JStr "n"); ("x", JInt 1)])] in
      accepts 12 cls (schema_enums SI2) (AClass "Q") j = true /\ covers 12 cls (AClass "Q") j = true /\
@@ -355,6 +358,42 @@ Example C05_interface_hypotheses_satisfiable :
             (JObj [("named", JObj [("__typename", JStr "B"); ("name", JStr "n")])]) = false /\
     accepts 12 cls (schema_enums SI2) (AClass "Q")
             (JObj [("named", JObj [("__typename", JStr "A"); ("name", JStr "n"); ("x", JStr "no")])]) = false.
+Proof.
+  do 3 eexists.
+  split; [reflexivity|].
+  split; [vm_compute; reflexivity|].
+  split; [vm_compute; reflexivity|].
+  vm_compute. repeat split.
+Qed.
+
+(* ---- non-vacuity with @mixin (operation, field with sub-selection, mixin fragment): extra bases after
+        BaseModel / the fragment class, strictness unaffected ---- *)
+Definition frsNx : list fragdef :=
+  [{| fr_name := "UserBits"; fr_on := "User"; fr_mixins := ["FragMixin"];
+      fr_sel := [SField None "fullName" true [] None] |}].
+Definition selsNx : list sel :=
+  [SField None "users" false ["RowMixin"]
+     (Some [SField None "id" false [] None; SSpread "UserBits" false;
+            SField (Some "homeAddress") "address" false ["AddrMixin"] (Some [SField None "city" false [] None])])].
+Definition userNx (addr : json) : json :=
+  JObj [("users", JArr [JObj [("id", JStr "1"); ("fullName", JStr "A"); ("homeAddress", addr)]])].
+Definition mxNx : list string := ["OpMixin"; "RowMixin"; "AddrMixin"; "FragMixin"].
+
+Example C05_at_mixin_hypotheses_satisfiable :
+  exists own pub' cls,
+    root_type_name SY "query" = Ok "Query" /\
+    op_parse 10 C0 SY frsNx "query" "GetUsers" ["OpMixin"] selsNx = Ok (own, pub', false) /\
+    all_classes 10 C0 SY frsNx (DOp "query" "GetUsers" ["OpMixin"] selsNx) = Ok cls /\
+    op_okM 10 true C0 SY frsNx mxNx ["OpMixin"] "Query" selsNx = true /\
+    sels_strictM 10 C0 SY frsNx false "Query" selsNx = true /\ mx_ok cls mxNx = true /\
+    nodupb (map c_name cls) = true /\ no_basemodel cls = true /\ frag_no_skip 10 C0 SY frsNx = true /\
+    map c_bases cls = [["BaseModel"; "OpMixin"]; ["UserBits"; "RowMixin"]; ["BaseModel"; "AddrMixin"];
+                       ["BaseModel"; "FragMixin"]] /\
+    accepts 22 cls (schema_enums SY) (AClass (pascal_s "GetUsers")) (userNx (JObj [("city", JStr "X")])) = true /\
+    covers 22 cls (AClass (pascal_s "GetUsers")) (userNx (JObj [("city", JStr "X")])) = true /\
+    conf_op 10 SY frsNx "Query" selsNx (userNx (JObj [("city", JStr "X")])) = true /\
+    accepts 22 cls (schema_enums SY) (AClass (pascal_s "GetUsers")) (userNx (JObj [("city", JNull)])) = false /\
+    accepts 22 cls (schema_enums SY) (AClass (pascal_s "GetUsers")) (userNx (JObj [])) = false.
 Proof.
   do 3 eexists.
   split; [reflexivity|].
